@@ -265,6 +265,22 @@ func c15SpecialList() []c15Special {
 		{"library-selective", map[string]string{"主.zn": "导入《@JSON》之生成JSON\n（显示：“ok”）\n输出（解析JSON：“{}”）"}, s("ok"), 42},
 		{"missing-library", map[string]string{"主.zn": "导入《@无此库》\n输出1"}, "", 64},
 		{"library-name-read-only", map[string]string{"主.zn": "导入《@JSON》\n生成JSON = 1\n输出1"}, "", 44},
+		// an imported method is the same method however it is reached: bound to a variable, handed to
+		// a method as an argument, stored in a list - it still runs in its own module (the importer
+		// took only that one name, so the helper it uses is unknown to the importer itself)
+		{"imported-method-through-a-variable", map[string]string{
+			"主.zn": "导入“甲”之主法\n令函 = 主法\n（显示：（函））\n输出（主法）",
+			"甲.zn": "如何助？\n    输出41\n如何主法？\n    输出（助） + 1",
+		}, "n:4045000000000000", 0},
+		{"imported-method-as-an-argument", map[string]string{
+			"主.zn": "导入“甲”之主法\n如何用？\n    输入函\n    输出（函） + 100\n（显示：（用：主法））\n输出1",
+			"甲.zn": "如何助？\n    输出41\n如何主法？\n    输出（助） + 1",
+		}, "n:4061c00000000000", 0},
+		{"imported-method-handed-on-by-a-middle-module", map[string]string{
+			"主.zn": "导入“乙”之转\n如何己？\n    输出7\n（显示：（转：己））\n输出1",
+			"乙.zn": "导入“甲”之主法\n如何转？\n    输入函\n    输出（函） + （主法）",
+			"甲.zn": "如何助？\n    输出41\n如何主法？\n    输出（助） + 1",
+		}, "n:4048800000000000", 0},
 		// a module file that holds nothing but import statements is a module like any other
 		{"import-only-chain", map[string]string{
 			"主.zn": "导入“甲”\n（显示：“main”）\n输出1",
